@@ -147,6 +147,11 @@ def check_stream_props(prop, tier, seed, log=print):
                                        'the reference-lexer oracle of this property found no failing input',
                                   correspondence='T-B implementation vs LogosModel.graphLex'), no_input=True,
                       key='tie|%s' % corpus[idx].origin)
+    # a failed certificate names a (state, byte): search its neighbourhood for an input on which the
+    # implementation and the reference lexer differ
+    if cert_fail_defs:
+        found = cert_fail_search(run, r, prop, cert_fail_defs, log)
+        oracle_fail_defs |= found
     for idx in cert_fail_defs:
         if idx not in oracle_fail_defs:
             run.violation('certificate', dict(definition=srcs[idx], origin=corpus[idx].origin,
@@ -156,6 +161,9 @@ def check_stream_props(prop, tier, seed, log=print):
                           key='cert|%s' % corpus[idx].origin)
     if prop == 'C03':
         c03_extra(run, r, log)
+    if prop == 'C01':
+        lk = pikevm_pass(run, r, log)
+        run.coverage['lookaround_reference'] = lk
     run.coverage.update(dict(evaluations=evals, distinct_nontrivial=len(nontrivial),
                              rule='(definition, input) pairs run through compiled lexers in every configuration; inputs are transition-directed '
                                   '(access string of every graph state + probe bytes / EOI, self-loop run lengths 0..17) plus pattern samples and random strings; '
@@ -165,6 +173,134 @@ def check_stream_props(prop, tier, seed, log=print):
     run.assumptions += ['look-around definitions are covered by the graph-level theorems and the implementation-vs-model tie only (spec-level theorems are stated for the look-free fragment)',
                         'quantifier over definitions is sampled (corpus); per validated definition the theorem covers every input']
     return run.finish()
+
+
+def pikevm_pass(run, r, log):
+    """definitions with look-around: compare the Ok items (and callback-made errors) of the compiled
+    lexer with a reference lexer built on regex-automata's PikeVM from the captured HIR. The reference
+    does not decide where a no-match error ends; it resumes where the implementation resumed."""
+    import subprocess
+    lean = r['lean']
+    look = [i for i in r['accepted'] if lean.get('%d CERT' % i, '') == 'LOOK']
+    cfg = 'tail' if r['zoo_out'].get('tail') else next((c for c, o in r['zoo_out'].items() if o), None)
+    st = streams_of(r, cfg) if cfg else None
+    if not look or st is None:
+        return dict(definitions=0)
+    cap_n = 500 if r['tier'] == 'quick' else 5000
+    lines = []
+    asked = []
+    for i in look:
+        lines += P.case_block(str(i), r['caps'][i], r['corpus'][i])
+        ins = [b for b in r['inputs'][i] if len(b) <= 24]
+        step = max(1, len(ins) // cap_n)
+        for b in ins[::step]:
+            hx = P.hexs(b)
+            v = st.get((i, 'n', hx))
+            if v is None:
+                continue
+            items, final, marker = parse_stream(v)
+            if marker:
+                continue
+            resume = ','.join('%d>%d' % (a, e) for (k, nm, a, e) in items if k == 'err' and nm in ('d',) or (k == 'err' and nm.startswith('b')))
+            lines.append('Q REF %s %s' % (hx, resume or '-'))
+            asked.append((i, hx, v))
+    binp = os.path.join(P.HARNESS, 'target', 'debug', 'reflex')
+    pr = subprocess.run([binp], input='\n'.join(lines) + '\n', capture_output=True, text=True)
+    ref = {}
+    for ln in pr.stdout.split('\n'):
+        if ' : ' in ln:
+            k, v = ln.split(' : ', 1)
+            t = k.split(' ')
+            ref[(int(t[0]), t[2])] = v
+    bad = 0
+    for (i, hx, v) in asked:
+        rv = ref.get((i, hx))
+        if rv is None or 'NORESUME' in rv or 'REFLOOP' in rv:
+            # the implementation produced a token where the reference expected an error (or vice versa): compare below
+            pass
+        if rv is None:
+            continue
+        impl_items = [t for t in v.split(' ') if t and not t.startswith('.')]
+        ref_items = [t for t in rv.split(' ') if t and not t.startswith('.') and t not in ('NORESUME', 'REFLOOP')]
+        ok = True
+        if len(impl_items) != len(ref_items) and 'NORESUME' not in rv:
+            ok = False
+        for a, b in zip(impl_items, ref_items):
+            if b.startswith('!?:'):
+                # reference: no pattern matches a non-empty prefix here -> implementation must have a default error starting there
+                pstart = b[3:].rstrip('-')
+                if not (a.startswith('!') and not a.startswith('!c') and a.split(':')[1].split('-')[0] == pstart):
+                    ok = False
+                    break
+            elif a != b:
+                ok = False
+                break
+        if 'NORESUME' in rv and ok:
+            ok = False
+        if not ok:
+            bad += 1
+            run.violation('oracle-lookaround', rep_of(r, i, cfg, 'n', hx, observed=v, expected_by_pikevm_reference=rv,
+                                                      what='items differ from the PikeVM reference lexer (longest match / priority on a definition with look-around assertions)'),
+                          key='pike|%s|%s' % (r['corpus'][i].origin, hx))
+    return dict(definitions=len(look), comparisons=len(asked), failures=bad)
+
+
+def cert_fail_search(run, r, prop, defs_, log):
+    import zoo as Z
+    lean = r['lean']
+    found = set()
+    cfg = next((c for c, o in r['zoo_out'].items() if o and 'trace' not in c), None)
+    if cfg is None:
+        return found
+    binp = os.path.join(P.HARNESS, 'target-zoo', 'zoo-%s-%s' % (r['tier'], cfg), 'debug', 'zoo')
+    reqs, lines = [], []
+    for idx in defs_:
+        v = lean.get('%d CERT' % idx, '')
+        m = re.search(r'state=(\d+).*badbyte=\(some (\d+)\)', v)
+        cap = r['caps'][idx]
+        acc = P.access_strings(cap)
+        cands = set()
+        if m and int(m.group(1)) in acc:
+            base = acc[int(m.group(1))] + [int(m.group(2))]
+            tails = [[]] + [[b] for b in P.PROBES] + [[0x61, 0x61], [0x40], [0x7a, 0x30], [0x61, 0x62, 0x63]]
+            for t in tails:
+                cands.add(bytes(base + t))
+            for s_, a in acc.items():
+                cands.add(bytes(a + [int(m.group(2))]))
+                cands.add(bytes(a + [int(m.group(2)), 0x61]))
+        # complete each candidate to a full match with the reference semantics (shortest extension)
+        cl = P.case_block(str(idx), cap, r['corpus'][idx]) + ['Q COMPLETE ' + P.hexs(c) for c in sorted(cands)]
+        comp = P.run_lean(cl, nproc=1)
+        for c in sorted(cands):
+            w = comp.get('%d COMPLETE %s' % (idx, P.hexs(c)), 'NONE')
+            if w not in ('NONE', ''):
+                ext = bytes.fromhex(w) if w != '-' else b''
+                cands = cands | {c + ext, c + ext + b'a'}
+        if r['corpus'][idx].utf8:
+            cands = {c for c in cands if P.is_valid_utf8(list(c))}
+        lines += P.case_block(str(idx), cap, r['corpus'][idx])
+        for c in sorted(cands):
+            reqs.append('%d n %s' % (idx, P.hexs(c)))
+            lines.append('Q SPEC ' + P.hexs(c))
+    if not reqs:
+        return found
+    outs = Z.run_zoo(binp, reqs, nproc=2)
+    spec = P.run_lean(lines, nproc=4)
+    for ln in outs:
+        idx, mode, hx, v = split_line(ln)
+        sv = spec.get('%d SPEC %s' % (idx, hx))
+        if sv is None or sv == 'LOOK' or sv == v:
+            continue
+        dv = first_divergence(parse_stream(v), parse_stream(sv))
+        if dv is None:
+            continue
+        j, a, b = dv
+        cls = 'C02' if (b is not None and b[0] == 'err') else ('C03' if (b is not None and b[0] == 'final' and a is not None and a[0] == 'final') else 'C01')
+        if cls == prop:
+            found.add(idx)
+            run.violation('oracle', rep_of(r, idx, cfg, 'n', hx, observed=v, expected_by_reference_lexer=sv, found_by='search around the failed certificate',
+                                           first_divergence=dict(index=j, observed=a, expected=b)), key='%s|%s' % (r['corpus'][idx].origin, hx))
+    return found
 
 
 def c03_predicate(impl, n):
@@ -630,8 +766,20 @@ def check_c07(tier, seed, log=print):
                             run.violation('partial-eager', rep_of(r, idx, cfgname, 'p', P.hexs(pr), partial_stream=pv, reference_partial=sv,
                                                                   what='partial lexer differs from the reference partial lexer (commits too early or waits although the item is determined)'),
                                           key='eager|%s|%s' % (corpus[idx].origin, P.hexs(pr)))
+    # certificate for partial mode (theorem partial_eq_spec needs prefixOK on every certified pair)
+    certp = dict(P=0, noP=0)
+    for i in r['accepted']:
+        v = lean.get('%d CERT' % i, '')
+        if v.startswith('OK'):
+            flag = v.split(' ')[-1]
+            certp[flag] = certp.get(flag, 0) + 1
+            if flag == 'noP' and i not in fails:
+                run.violation('certificate', dict(definition=r['srcs'][i], origin=corpus[i].origin, verdict=v,
+                                                  what='prefixOKB rejected the captured graph: some certified state waits for input although no byte keeps a pattern viable (or the converse); theorem partial_eq_spec no longer applies',
+                                                  theorem='Logos.partial_eq_spec (hypothesis ValidP via validPB_sound)'), no_input=True, key='certp|%s' % corpus[i].origin)
     nt, dis, bad_defs = tie_pass(run, r, modes=('p',))
     report_tie(run, r, bad_defs, covered=fails)
+    run.coverage['partial_certificates'] = certp
     run.coverage.update(dict(evaluations=n, distinct_nontrivial=len(nontriv),
                              rule='for sampled inputs S of every accepted definition and every split point k: Lexer::new_partial over S[..k] vs the one-shot lexing of S by the same compiled lexer '
                                   '(leading run, empty span at None, position between committed end and next start), and vs the Lean reference partial lexer specLexP for look-free definitions; non-trivial = at least one item committed before a proper split',
